@@ -192,6 +192,9 @@ type WireGen struct {
 	// argument gets KeySeq[0], the second KeySeq[1], ...
 	KeySeq []string
 	keyPos int
+	// CursorZero: iterations start at cursor 0 with a page that holds everything (complete listings
+	// can be compared as multisets even when row ids differ between two databases)
+	CursorZero bool
 }
 
 // ResetKeySeq restarts the key sequence for the next vector.
@@ -303,7 +306,13 @@ func (g *WireGen) genComb(c *Comb, malformed float64, nkeys *int) []string {
 			return []string{strconv.FormatInt((g.NowSec+int64(3600*(1+g.pick(3))))*1000, 10)}
 		}
 		if !bad && (d == "cursor") {
+			if g.CursorZero {
+				return []string{"0"}
+			}
 			return []string{[]string{"0", "1", "2", "5"}[g.pick(4)]}
+		}
+		if !bad && g.CursorZero && d == "count" {
+			return []string{[]string{"100", "0", "1000", "50"}[g.pick(4)]}
 		}
 		if !bad && (d == "count" || d == "offset" || d == "start" || d == "stop" || d == "index") {
 			return []string{[]string{"0", "1", "2", "-1", "-2", "5", "10"}[g.pick(7)]}
